@@ -11,6 +11,7 @@
   by the correspondence streams).
 -/
 import UnicLocale.SrcTie.Parse
+import UnicLocale.SrcTie.Fmt
 import UnicLocale.Props.C01
 import UnicLocale.Props.C02
 import UnicLocale.Props.C03
@@ -96,5 +97,24 @@ theorem superset (bs : Bytes) (i : LangId) (h : Src.LangId.fromBytes bs = .ok i)
     Src.Locale.fromBytes bs = .ok { id := i, ext := {} } := by
   rw [UL.SrcTie.LangId.fromBytes_eq] at h
   rw [UL.SrcTie.Locale.fromBytes_eq]; exact UL.Props.C13.superset bs i h
+
+/-! ### C04 / C05 on the source-derived `Display` and `canonicalize` -/
+
+/-- what the source-derived `Display for Locale` writes for a value the source-derived parser returned is canonical -/
+theorem parsed_locale_prints_canonical (bs : Bytes) (x : Locale) (h : Src.Locale.fromBytes bs = .ok x) :
+    Spec.isCanonical (Src.Locale.fmt x []) = true := by
+  rw [UL.SrcTie.Locale.fmt_eq]; simpa using locale_parse_canonical bs x h
+
+/-- string round trip entirely on source-derived definitions: print with the source's `Display`, re-read with the source's
+    parser -/
+theorem locale_roundtrip_src (x : Locale) (h : x.inv = true) : Src.Locale.fromBytes (Src.Locale.fmt x []) = .ok x := by
+  rw [UL.SrcTie.Locale.fmt_eq]; simpa using locale_roundtrip x h
+
+/-- `canonicalize` (unic-locale-impl), as the source says it, is idempotent -/
+theorem canonicalize_idem (bs s : Bytes) (h : Src.Locale.canonicalize bs = .ok s) : Src.Locale.canonicalize s = .ok s := by
+  rw [UL.SrcTie.Locale.canonicalize_eq] at h ⊢; exact UL.Props.C05.canonicalize_idem bs s h
+
+theorem langid_canonicalize_idem (bs s : Bytes) (h : Src.LangId.canonicalize bs = .ok s) : Src.LangId.canonicalize s = .ok s := by
+  rw [UL.SrcTie.LangId.canonicalize_eq] at h ⊢; exact UL.Props.C05.langid_canonicalize_idem bs s h
 
 end UL.SrcTie.TransferParse
